@@ -383,6 +383,26 @@ func checkC07(rep *Report, rng *Rng, tier string) {
 		rep.Violation(key, false, map[string]interface{}{"case": c, "mismatch": m2})
 		return len(rep.Violations) >= 3
 	}
+	// the two listed findings, probed deterministically on every run
+	probeOps := func(ops ...Op) []string { return opsString(ops) }
+	ex := c07Case{Ops: probeOps(Op{K: "coll", Name: "p"}, Op{K: "set", Name: "p", Key: []byte("k"), Val: []byte("v"), Prio: 1},
+		Op{K: "flush"}, Op{K: "reopen"}, Op{K: "exist", Name: "p", Key: []byte("k")}),
+		Plan: []faultSpec{{Step: 4, K: 1, NoRetry: true}}}
+	if m := runC07(ex, st); m != nil {
+		key := ""
+		if m.Kind == "swallowed" && strings.HasPrefix(m.Op, "exist ") {
+			key = "exist-swallows-error"
+		}
+		rep.Violation(key, false, map[string]interface{}{"case": ex, "mismatch": m})
+	}
+	rv := c07Case{Ops: probeOps(Op{K: "coll", Name: "p"}, Op{K: "set", Name: "p", Key: []byte("a"), Val: []byte("1"), Prio: 1},
+		Op{K: "flush"}, Op{K: "set", Name: "p", Key: []byte("b"), Val: []byte("2"), Prio: 2}, Op{K: "flush"},
+		Op{K: "set", Name: "p", Key: []byte("c"), Val: []byte("3"), Prio: 3}, Op{K: "flush"}, Op{K: "revert"}, Op{K: "names"}),
+		Plan: []faultSpec{{Step: 6, K: 3, NoRetry: true}}}
+	if m := runC07(rv, st); m != nil {
+		rep.Violation("", false, map[string]interface{}{"case": rv, "mismatch": m})
+	}
+	rep.Evaluations += 2
 	budget := 4000 // enumerated runs (mode A)
 	if tier == "thorough" {
 		budget = 150000
